@@ -1,0 +1,22 @@
+//go:build verif
+
+package http
+
+import (
+	"net"
+
+	"github.com/rqlite/rqlite/v10/command/proto"
+	"github.com/rqlite/rqlite/v10/queue"
+)
+
+// StartVerif starts the service's queue processing exactly as Start does, but
+// on a caller-supplied listener and without serving HTTP on it: a simulation
+// harness calls ServeHTTP directly. Only present in "verif" builds.
+func (s *Service) StartVerif(ln net.Listener) error {
+	s.ln = ln
+	s.closeCh = make(chan struct{})
+	s.queueDone = make(chan struct{})
+	s.stmtQueue = queue.New[*proto.Statement](s.DefaultQueueCap, s.DefaultQueueBatchSz, s.DefaultQueueTimeout)
+	go s.runQueue()
+	return nil
+}
